@@ -36,12 +36,16 @@ FINDINGS = {
                                     "process ask for 160 GB and die with `fatal error: runtime: out of memory` (not recoverable)",
 }
 
-# (the map32 threshold `eq:78:dfffffffff` also dies, but only after the library has filled the
-#  whole address-space limit table by table — ~1 min; it is recorded in the replay file only)
+# (line, address-space limit in GiB).  On the unrepaired code the map32 threshold dies only after the
+# library has filled the whole limit table by table, so it gets a small one.
 PROBES = [
-    "ap 81a17801 - merge:6d:dfffffffff",
-    "ap dfffffffff -",
-    "ap 81a178a161 eq:78:ddffffffff",
+    ("ap 81a17801 - merge:6d:dfffffffff", 4),      # extractTopLevelFields
+    ("ap dfffffffff -", 4),                        # parseMap on the body
+    ("parse ddffffffff", 4),                       # parseArray
+    ("ap 81a17801 - set:78:ddffffffff", 4),        # op value validated with Parse
+    ("ap 81a178a161 eq:78:ddffffffff", 4),         # threshold → generic decoder, slice
+    ("ap 81a178a161 eq:78:dfffffffff", 2),         # threshold → generic decoder, map
+    ("ap 81a178c0 eq:78:92dfffffffffc0", 2),       # … nested
 ]
 
 
@@ -489,13 +493,12 @@ def spec_violated(rep):
 
 # ------------------------------------------------------------------ allocation probe (memory-limited child)
 def probe(ctx, drv_args):
-    """Each probe line in its own `hx run` child with RLIMIT_AS = 4 GiB.  Returns (crashed lines, mismatching lines)."""
+    """Each probe line in its own memory-limited (RLIMIT_AS) `hx run` child.  Returns (crashed lines, mismatching lines)."""
     hx = os.path.join(K.BIN, "hx")
-
-    def limit():
-        resource.setrlimit(resource.RLIMIT_AS, (4 << 30, 4 << 30))
     crashed, wrong = [], []
-    for line in PROBES:
+    for line, gib in PROBES:
+        def limit(g=gib):
+            resource.setrlimit(resource.RLIMIT_AS, (g << 30, g << 30))
         try:
             _, model, _ = K.run_lines([K.drv_path(), "C13", *drv_args], line + "\n", timeout=60)
             p = subprocess.run([hx, "run", "C13"], input=line + "\n", stdout=subprocess.PIPE, stderr=subprocess.PIPE,
@@ -574,7 +577,8 @@ def run(ctx):
     crashed, wrong = ([], [])
     if corrs and not c.err:
         crashed, wrong = probe(ctx, args)
-        ctx.cov["alloc_probe"] = {"lines": PROBES, "crashed": [l for l, _ in crashed], "limit": "RLIMIT_AS 4 GiB"}
+        ctx.cov["alloc_probe"] = {"lines": [l for l, _ in PROBES], "crashed": [l for l, _ in crashed],
+                                  "limit": "RLIMIT_AS 2-4 GiB per child"}
         if crashed:
             if pid_f in known:
                 ctx.known_hits.append((pid_f, FINDINGS[pid_f]))
@@ -584,7 +588,7 @@ def run(ctx):
                                "replay_cmd": "(ulimit -v 4194304; printf '%s\\n' | bin/hx run C13)" % crashed[0][0]}, tag=pid_f)
         elif pid_f in known:
             ctx.violation("listed finding %s no longer reproduces (allocation probe answered every line)" % pid_f,
-                          {"finding": pid_f, "probes": PROBES}, tag="drift", found_input=False)
+                          {"finding": pid_f, "probes": [l for l, _ in PROBES]}, tag="drift", found_input=False)
         for line, out, mod in wrong[:1]:
             ctx.violation("allocation probe: implementation and model disagree", {"ops": [line], "impl": [out], "model": [mod]},
                           tag="corr", found_input=False)
